@@ -42,16 +42,19 @@ func (compile schemaCompiler) compileNode(node schema.Node, indexOfNode int) {
 	compile.orConstraint(node)        // can panic. Must be called before compile.typeConstraint()
 	compile.enumConstraint(node)      // can panic. Must be called before compile.typeConstraint()
 	compile.precisionConstraint(node) // can panic. Must be called before compile.typeConstraint()
+	compile.ruleSetConstraints(node)  // can panic. Must be called before compile.typeConstraint()
 	compile.typeConstraint(node)      // can panic
 	if err := compile.allowedConstraintCheck(node); err != nil {
 		panic(err)
 	}
-	compile.anyConstraint(node) // can panic
+	compile.anyConstraint(node)              // can panic
+	compile.exclusiveMinimumConstraint(node) // can panic
+	compile.exclusiveMaximumConstraint(node) // can panic
+	// After the exclusive flags became part of "min" and "max": with either of
+	// them the bounds have to differ.
 	if err := compile.checkPairConstraints(node); err != nil {
 		panic(err)
 	}
-	compile.exclusiveMinimumConstraint(node)       // can panic
-	compile.exclusiveMaximumConstraint(node)       // can panic
 	compile.optionalConstraints(node, indexOfNode) // can panic
 
 	if branchingNode, ok := node.(schema.BranchNode); ok {
@@ -531,6 +534,50 @@ func (schemaCompiler) precisionConstraint(node schema.Node) {
 	t := c.(*constraint.TypeConstraint).Bytes().Unquote().String()
 	if t != "decimal" {
 		panic(errors.Format(errors.ErrUnexpectedConstraint, constraint.PrecisionConstraintType, t))
+	}
+}
+
+// ruleSetConstraints a rule set of an "or" rule describes values of one kind -
+// the one its "type" names, else the kind of the example it stands next to.
+// Its other rules have to apply to that kind, as they have to on a node.
+func (schemaCompiler) ruleSetConstraints(node schema.Node) {
+	if _, ok := node.(*schema.MixedNode); !ok {
+		return
+	}
+	if node.Constraint(constraint.OrConstraintType) != nil ||
+		node.Constraint(constraint.TypesListConstraintType) != nil ||
+		node.Constraint(constraint.EnumConstraintType) != nil {
+		return // the node that carries the "or" rule itself, or a list of values
+	}
+
+	t := node.Type()
+	name := t.String()
+	if c := node.Constraint(constraint.TypeConstraintType); c != nil {
+		val := c.(*constraint.TypeConstraint).Bytes().Unquote()
+		name = val.String()
+		switch name {
+		case "any", "enum", "mixed":
+			return
+		case "email", "uri", "uuid", "date", "datetime":
+			t = json.TypeString
+		case "decimal":
+			t = json.TypeFloat
+		default:
+			if val.IsUserTypeName() {
+				return
+			}
+			t = json.NewJsonType(val) // can panic
+		}
+	}
+
+	err := node.ConstraintMap().Each(func(_ constraint.Type, v constraint.Constraint) error {
+		if !v.IsJsonTypeCompatible(t) {
+			return errors.Format(errors.ErrUnexpectedConstraint, v.Type().String(), name)
+		}
+		return nil
+	})
+	if err != nil {
+		panic(err)
 	}
 }
 
